@@ -14,3 +14,17 @@ extern "C" void h_lit_macro() {
   if (e1 == e0) ASSERT(r >= 0 && (unsigned long)r == value, "C20: an accepted priority literal is converted to exactly its value");
   ASSERT(0, "WITNESS: end of h_lit_macro reachable");
 }
+
+// C02: the index of an insertion ($N) is converted twice - checked in extract_macros (strToInt), used in get_replacement (strToIntSilent): whenever
+// the check lets an insertion through, the index used later designates an existing slot (no out-of-range access when the macro is applied)
+extern "C" void h_lit_insertion() {
+  unsigned long value; std::string txt = sym_literal(value);
+  std::vector<Theo::Token> toks; Token t; t.t = Token::INSERTION; t.text = txt; t.file = "m"; t.line = 3; toks.push_back(t);
+  ExtractionState es = {.incomplete_macros = {}, .encountered_errors = {}, .tok_pos = 1, .tokens = toks, .output = {}};
+  int slots = nondet_int(); ASSUME(slots >= 0 && slots <= 3);
+  int ind = strToInt(es, txt);                       // as in the tail of extract_macros
+  bool kept = !(ind < 0 || ind >= slots);
+  int used = strToIntSilent(txt);                    // as in get_replacement
+  if (kept) ASSERT(used >= 0 && used < slots, "C02: an insertion index accepted by macro extraction designates an existing slot when the macro is applied");
+  ASSERT(0, "WITNESS: end of h_lit_insertion reachable");
+}
